@@ -151,6 +151,8 @@ def run_case(case):
     res = float(zm * rng.uniform(0.125, 2.0))
     ncell = int(rng.integers(12, 40))
     wdkind = str(rng.choice(["none", "cardinal", "arbitrary", "near_cardinal", "integer_typed"]))
+    if case["idx"] % 10 == 7:
+        wdkind = "none"
     wd = None if wdkind == "none" else (float(rng.choice([0, 90, 180, 270, 0, 90, 180, 270, 360, 450, 540, 630, 720, -90, -180, -270, -360])) if wdkind == "cardinal" else float(rng.uniform(0, 360)))
     if wdkind == "near_cardinal":
         # a hair beside a multiple of 90 degrees (what rad2deg(arctan2(-u, -v)) returns for a wind that is cardinal up to round-off)
@@ -172,6 +174,10 @@ def run_case(case):
         # distance of that cell (without wd: of its whole column) is exactly zero
         ix_, iy_ = int(rng.integers(2, ncell - 2)), int(rng.integers(2, max(3, int(0.8 * ncell) - 2)))
         mxy = (-half + (ix_ + 0.5) * res, -half * 0.8 + (iy_ + 0.5) * res)
+    if case["idx"] % 10 == 7 and wd_arg is None:
+        # wind-aligned raster centred on the receptor across the wind (bounds symmetric about it) - whatever the cell size does to the rows
+        mxy = (mxy[0], 0.0)
+        buckets["wind_aligned_raster_centred_on_receptor"] = 1
     if case["idx"] % 5 == 1:
         # the receptor on an edge or a corner of the raster, or beside it (a tower next to the mapped area): every cell then lies on one
         # side of it in map coordinates, whatever the wind
@@ -348,7 +354,29 @@ def run_case(case):
         if e > 1e-10 or np.isnan(zraw[good]).any():
             viol.append({"what": "estimateZ0_does_not_invert_log_law", "rel": e})
         win = float(rng.choice([22, 22, 5, 1, 45, 22.5, 10]))
+        if case["idx"] % 3 == 0:
+            # a few very stable light-wind records whose raw estimate is absurd (thousands of metres: screened out by the function) among
+            # the ordinary ones - what their neighbours in direction get is still a median of ordinary estimates
+            for j_ in rng.choice(nobs, size=3, replace=False):
+                Lv[j_], wsv[j_], usv[j_] = float(zm / 2.0), 1.0, 0.2
+            zraw = KM.estimateZ0(zmv, wsv, wdv, usv, Lv, half_wd_win=0)
+            buckets["z0_series_with_screened_outliers"] = 1
         zs = KM.estimateZ0(zmv, wsv, wdv, usv, Lv, half_wd_win=win)
+        # the smoothed value of a record is a median of raw estimates of its direction window: finite whenever the window holds a finite
+        # raw estimate, and never outside the range of those estimates
+        kkv = np.floor(wdv)
+        n_med = 0
+        for j_ in range(0, nobs, max(1, nobs // 48)):
+            dlt = (wdv - kkv[j_] + 180.0) % 360.0 - 180.0
+            inw = (dlt >= -win) & (dlt < 1 + win) & np.isfinite(zraw)
+            if inw.any() and wdv[j_] < 360.0:
+                n_med += 1
+                lo_, hi_ = float(np.min(zraw[inw])), float(np.max(zraw[inw]))
+                if not (np.isfinite(zs[j_]) and lo_ * (1 - 1e-12) <= zs[j_] <= hi_ * (1 + 1e-12)):
+                    viol.append({"what": "smoothed_z0_is_not_a_median_of_its_direction_window", "record": int(j_), "got": float(zs[j_]), "window_range": (lo_, hi_),
+                                 "window": win, "finite_raw_estimates_in_window": int(inw.sum())})
+                    break
+        counters["z0_window_median_checks"] = counters.get("z0_window_median_checks", 0) + n_med
         for rot in (int(rng.integers(1, 360)), 90, 271, 10, 180, 338):
             zr = KM.estimateZ0(zmv, wsv, (wdv + rot) % 360.0, usv, Lv, half_wd_win=win)
             counters["z0_calls"] += 1
